@@ -36,14 +36,14 @@ def run(run):
             sc += "Reset\nWalk 9 1 0\nNoDetent %d %d\nWalk 30 %d 2\n" % (base + k, 1 if k % 2 else -1, -1 if k % 2 else 1)
     # the same state polled many times in a row: at rest on the detent (also with the phase shifted by invalid jumps),
     # and held at each of the other three states; run lengths beyond any 8- or 16-bit dwell counter
-    holds = (130, 260, 520, 1100, 70000) if run.thorough() else (130, 260, 520, 70000)
+    holds = (130, 260, 520, 1100, 4095, 4096, 4097, 70000) if run.thorough() else (130, 260, 520, 4097, 70000)
     for i, n in enumerate(holds):
         for pre in ("", "D 3\nD 2\nD 0\n", "D 3\nD 1\nD 0\n", "D 1\nD 2\nD 0\nD 3\nD 2\nD 0\n"):
-            sc += "Reset\nWalk %d 1 0\n%sHold 0 %d\nWalk 9 1 1\nWalk 30 -1 2\n" % (8 + i, pre, n if n < 70000 or not pre else 300)
+            sc += "Reset\nWalk %d 1 0\n%sHold 0 %d\nWalk 9 1 1\nWalk 30 -1 2\n" % (8 + i, pre, n if n < 70000 or not pre else 66000)
         for st in (1, 3, 2):
             sc += "Reset\nWalk %d -1 0\n" % (4 + i)
             sc += {1: "D 1\n", 3: "D 1\nD 3\n", 2: "D 2\n"}[st]
-            sc += "Hold %d %d\nWalk 13 1 3\nWalk 40 -1 0\nHold 0 5\nWalk 9 1 2\n" % (st, n if st == 3 or n < 70000 else 400)
+            sc += "Hold %d %d\nWalk 13 1 3\nWalk 40 -1 0\nHold 0 5\nWalk 9 1 2\n" % (st, n if st == 3 or n < 70000 else 66000)
     # the counts are read only now and then: rests on clicks that are multiples of 256 / 16384 go unread, the first read comes
     # part-way through the next click (or several clicks later)
     for clicks in (255, 256, 257, 512, 16383, 16384, 16385):
